@@ -356,6 +356,7 @@ static void metamorphic (const unsigned char *s, int n, int cut_from, int cut_le
 }
 
 static void elem_short (long idx) {
+  safe_apply_master_ob ("clear_mlog", 0);       /* the verification master logs every connect(): keep that array small */
   unsigned char s[16]; int n = short_decode (idx, s);
   int seg[16], one[1] = { n };
   plan_t p = { port, M_DRAIN, 0xA5, single, s, n, one, 1 };
@@ -420,6 +421,24 @@ static void elem_short (long idx) {
     for (int i = 0; i < ne;) { int l = E[i]; int l2 = 0; while (l2 < l && E[i + 2 + l2]) l2++; E2[ne2++] = (unsigned char) l2; E2[ne2++] = 0; memcpy (E2 + ne2, E + i + 2, (size_t) l2); ne2 += l2; i += 2 + l; }
     if (ref.ulen != ne2 || memcmp (ref.u, E2, (size_t) ne2)) failp ("C13:ascii:lines-not-the-LF-separated-lines", "delivered %s, LF-separated lines are %s", show_log (ref.u, ref.ulen), show_log (E2, ne2));
   }
+  if (port == PT_TELNET) {
+    /* IAC IAC is one data byte 0xFF: the stream with the pair replaced by an ordinary byte must give the same lines with 'b' for 0xFF */
+    for (int i = 0; i + 1 < n; i++) {
+      if (s[i] != 255 || s[i + 1] != 255 || isd[i + 1] != 2 || (i >= 1 && s[i - 1] == '\r')) continue;
+      unsigned char t[16]; int one[1];
+      memcpy (t, s, (size_t) i); t[i] = 'b'; memcpy (t + i + 1, s + i + 2, (size_t) (n - i - 2));
+      int tn = n - 1; one[0] = tn;
+      static plan_t q; q = (plan_t) { port, M_DRAIN, 0xA5, 0, t, tn, one, 1 };
+      /* only meaningful when this is the only 0xFF the stream can deliver and 'b' does not occur otherwise */
+      int other = 0; for (int j = 0; j < n; j++) if (j != i && j != i + 1 && (s[j] == 255 || s[j] == 'b')) other = 1;
+      if (other) continue;
+      run (&q, &red);
+      for (int j = 0; j + 2 <= red.ulen;) { int l = red.u[j] | (red.u[j + 1] << 8); for (int k = 0; k < l; k++) if (red.u[j + 2 + k] == 'b') red.u[j + 2 + k] = 255; j += 2 + l; }
+      P = &p;
+      if (!same_u (&ref, &red))
+        failp ("C13:telnet:IAC-IAC-is-not-one-0xFF-data-byte", "delivered %s, with an ordinary byte in place of IAC IAC (shown as ff) %s", show_log (ref.u, ref.ulen), show_log (red.u, red.ulen));
+    }
+  }
   if (port == PT_TELNET || port == PT_CONSOLE) {
     for (int i = 0; i < n; i++) {
       if (!(s[i] == '\b' || s[i] == 0x7f) || isd[i] != 1) continue;
@@ -482,6 +501,7 @@ static int lines_of (result_t *r, const unsigned char **ptr, int *len, int max) 
 
 static void elem_long (long idx) {
   n_seen = 0;
+  safe_apply_master_ob ("clear_mlog", 0);
   int n = nvals[idx / n_chunks], chunk = chunk_sizes[idx % n_chunks];
   int tl = (int) strlen (term ());
   for (int i = 0; i < n; i++) big[i] = (unsigned char) ('a' + i % 23);
@@ -530,6 +550,7 @@ static void elem_long (long idx) {
 static int burst_m[8], n_burst_m, kstep = 1;
 static void elem_lines (long idx) {
   n_seen = 0;
+  safe_apply_master_ob ("clear_mlog", 0);
   int chunk = chunk_sizes[idx % n_chunks]; long r = idx / n_chunks;
   int m = burst_m[r % n_burst_m]; int k = (int) (r / n_burst_m) + 1;
   int tl = (int) strlen (term ()), tot = 0;
@@ -573,6 +594,7 @@ static const unsigned char sb_opts[] = { 24, 31, 34, 99, 1 };
 static const unsigned char sb_first[] = { 0, 1, 3 };
 static int sb_maxpay;
 static void elem_sb (long idx) {
+  safe_apply_master_ob ("clear_mlog", 0);       /* the verification master logs every connect(): keep that array small */
   int chunk_i = (int) (idx % 4); idx /= 4;
   int terminated = (int) (idx % 2); idx /= 2;
   int quoted = (int) (idx % 2); idx /= 2;
@@ -619,6 +641,8 @@ static void describe (long idx, char *buf, size_t len) {
 }
 
 static void body (void) { vx_obs ("use --enum"); }
+/* a fresh 6 KB interactive_t per connection: keep ASan's quarantine small so that memory does not grow */
+const char *__asan_default_options (void) { return "quarantine_size_mb=16"; }
 
 int main (int argc, char **argv) {
   char mud[PATH_MAX];
